@@ -27,7 +27,7 @@ func init() {
 		Assumptions: []string{
 			"the map/program templates never use date/now and children run with TZ=UTC (the property exempts clock and time zone); the date family parses fixed date strings (never now) and is compared within one process only, where the time zone is one",
 			"which order maps iterate in is not asserted, only that it is one order",
-			"rebuilds keep the Go representation and change only construction order, capacity and (for the typed containers of pointers) the pointees' addresses; text that spells Go structs holding pointers (error messages, json/inspect, a printed struct) can contain addresses and is not covered",
+			"rebuilds keep the Go representation and change only construction order, capacity and (for the typed containers of pointers) the pointees' addresses; containers of pointers are also spelled by json, inspect and conversion error messages; a Go struct that itself has pointer FIELDS and is printed whole can show addresses and is not covered (the universe speaks of structs with data fields)",
 		},
 		MinEvents: map[string]int64{"executions_compared": 50000, "cross_process_cases": 200},
 		Run:       runC02,
@@ -102,6 +102,8 @@ func c02Gen(r *core.Rand, i int) c02case {
 		"{{ msv.Title }}|{{ msv.Upper }}|{{ msv.Slug }}", "{{ msp.Title }}|{{ msp.Upper }}|{{ msp.Slug }}", "{{ ta.label }}:{{ ta.cost }}:{{ ta.Sku }}", "{{ tb.label }}:{{ tb.cost }}:{{ tb.Sku }}",
 		// typed containers of pointers written out whole
 		"{{ pm }}|{{ ps | join: ',' }}|{{ ps }}|{{ pps }}|{{ mps }}", "{{ 'x' | append: ps }}|{{ pm | join: '+' }}|{{ mps.k | join: ',' }}|{{ pps | first | join: ',' }}|{{ pm.a }}{{ pst.s.Name }}{{ pps[1][0] }}",
+		// ... and spelled by json and inspect, and by the error messages of conversions that they cannot undergo
+		"{{ pm | json }}|{{ ps | json }}|{{ pps | inspect }}|{{ mps | json }}|{{ pst | json }}", "{{ ps | plus: 1 }}", "{% include pps %}", "{% for x in (1..pm) %}{% endfor %}", "{{ 'abc' | slice: mps }}", "{{ 1 | divided_by: ps }}",
 		// application tags that write: what they write belongs to one render
 		"{% xbump hits %}{% xbump hits %}hits={{ hits }} {% xbump n %}n={{ n }}{% xset seen = hits %}{{ seen }}", "{% for kv in flat %}{% xbump count %}{% endfor %}{{ count }}{% xbump flat %}{{ flat }}",
 		"{{ anyn | join: ',' }}|{{ anys | first | last }}|{% tablerow kv in anye %}{{ kv[1] }}{% endtablerow %}|{{ bigkeys | join: ',' }}|{% for kv in bigkeys %}{{ kv[0] }};{% endfor %}",
